@@ -63,11 +63,90 @@ def PreservesTorn (c : Cfg) (ep : EP) : Prop :=
     ∃ idx, mainIndex c d = some idx ∧ (Covers order idx →
       ∃ idx', mainIndex c (d.applyAll (compactVia c mk d ep order bs)) = some idx' ∧ idx'.Same idx)
 
-/-- The full-strength statement. -/
+/-! ### Histories: sessions, single chronicler calls, compactions in between -/
+
+/-- a history at session granularity: a writing session (`Write(items)` … `Close`) or a compaction -/
+inductive SAct where
+  | session (items : List (Op × Nat))
+  | compact (ep : EP) (order : List (Nat × Nat))
+
+def sStep (c : Cfg) (mk : Mk) (nl bs : Nat) (d : Disk) : SAct → Disk
+  | .session items =>
+    let w1 := cWrite c mk d { w := none, nlName := nl, bs := bs } items
+    (d.applyAll w1.2).applyAll (cClose c mk w1.1).2
+  | .compact ep order => d.applyAll (compactVia c mk d ep order bs)
+
+def sWritten : List SAct → List Op
+  | [] => []
+  | .session items :: r => items.map (·.1) ++ sWritten r
+  | .compact _ _ :: r => sWritten r
+
+/-- every compaction goes through an entry point that removes the temp, and iterates over exactly the live keys -/
+def sValid (c : Cfg) (mk : Mk) (nl bs : Nat) : Disk → List SAct → Prop
+  | _, [] => True
+  | d, .session items :: r => sValid c mk nl bs (sStep c mk nl bs d (.session items)) r
+  | d, .compact ep order :: r =>
+    ep.rmFirst c = true ∧ (∀ idx, mainIndex c d = some idx → Covers order idx) ∧
+      sValid c mk nl bs (sStep c mk nl bs d (.compact ep order)) r
+
+/-- the disk between sessions: nothing, or a clean main file and no temp -/
+def Between (nl : Nat) (d : Disk) (idx : Index) : Prop :=
+  (d = {} ∧ idx = []) ∨ ∃ blocks, (∀ b ∈ blocks, b.WF) ∧ d = cleanDisk nl blocks none ∧ idx = Index.replay [] (entsOf blocks)
+
+inductive MAct where
+  | w (items : List (Op × Nat))
+  | sync
+  | close
+  | compactLocked (order : List (Nat × Nat))            -- whatever the writer holds at that moment
+  | compactOff (ep : EP) (order : List (Nat × Nat))     -- CLI / Load self-heal: no writer is open
+
+structure MSt where
+  cs : CSt
+  d : Disk
+
+def mStep (c : Cfg) (mk : Mk) (s : MSt) : MAct → MSt
+  | .w items => ⟨(cWrite c mk s.d s.cs items).1, s.d.applyAll (cWrite c mk s.d s.cs items).2⟩
+  | .sync => ⟨(cSync c mk s.cs).1, s.d.applyAll (cSync c mk s.cs).2⟩
+  | .close => ⟨(cClose c mk s.cs).1, s.d.applyAll (cClose c mk s.cs).2⟩
+  | .compactLocked order => ⟨(cCompactLocked c mk s.d s.cs order).1, s.d.applyAll (cCompactLocked c mk s.d s.cs order).2⟩
+  | .compactOff ep order =>
+    match s.cs.w with
+    | some _ => s
+    | none => ⟨s.cs, s.d.applyAll (compactVia c mk s.d ep order s.cs.bs)⟩
+
+def mWritten : List MAct → List Op
+  | [] => []
+  | .w items :: r => items.map (·.1) ++ mWritten r
+  | _ :: r => mWritten r
+
+/-- every compaction removes the temp first and iterates over exactly the keys that are live in
+    the file it reads (for the locked entry point: the file after the writer was closed) -/
+def mValid (c : Cfg) (mk : Mk) : MSt → List MAct → Prop
+  | _, [] => True
+  | s, .compactLocked order :: r =>
+    EP.rmFirst c .locked = true ∧
+      (∀ idx, mainIndex c (s.d.applyAll (cClose c mk s.cs).2) = some idx → Covers order idx) ∧
+      mValid c mk (mStep c mk s (.compactLocked order)) r
+  | s, .compactOff ep order :: r =>
+    ep.rmFirst c = true ∧ (∀ idx, mainIndex c s.d = some idx → Covers order idx) ∧
+      mValid c mk (mStep c mk s (.compactOff ep order)) r
+  | s, a :: r => mValid c mk (mStep c mk s a) r
+
+
+/-- The full-strength statement: every single compaction preserves the live set (also on a main
+    file with a torn tail) and is crash-atomic, and whole histories — compactions between writing
+    sessions, and locked compactions in the middle of a session, on an open writer that still
+    buffers entries — load to the replay of everything written. -/
 structure Holds (c : Cfg) : Prop where
   preserves : ∀ ep, Preserves c ep
   preservesTorn : ∀ ep, PreservesTorn c ep
   atomic : Atomic c
+  anywhere : ∀ (mk : Mk), MkOk mk → ∀ (nl bs : Nat) (acts : List SAct), sValid c mk nl bs {} acts →
+    ∃ idx, Between nl (acts.foldl (sStep c mk nl bs) {}) idx ∧ idx.Same (Index.replay [] (sWritten acts))
+  midSession : ∀ (mk : Mk), MkOk mk → ∀ (nl bs : Nat) (acts : List MAct),
+    mValid c mk ⟨{ w := none, nlName := nl, bs := bs }, {}⟩ acts →
+    ∃ idx, Between nl (mStep c mk (acts.foldl (mStep c mk) ⟨{ w := none, nlName := nl, bs := bs }, {}⟩) .close).d idx ∧
+      idx.Same (Index.replay [] (mWritten acts))
 
 /-! ### Theorems -/
 
@@ -234,6 +313,372 @@ example : MkOk mk0 ∧ (∀ b ∈ [mk0 [Op.put 1 1, Op.put 2 5], mk0 [Op.del 1]]
   · intro k
     simp [entsOf, mk0, mkP, Index.replay, Index.apply, Index.put, Index.del, Index.keys]
 
+/-! ### Compaction anywhere in a history -/
+
+theorem Same_replay {a b : Index} (h : a.Same b) (es : List Op) : (Index.replay a es).Same (Index.replay b es) := by
+  induction es generalizing a b with
+  | nil => exact h
+  | cons e r ih =>
+    apply ih
+    intro k
+    cases e with
+    | put k' v =>
+      simp only [Index.apply, Index.get_put]
+      split
+      · rfl
+      · exact h k
+    | del k' =>
+      simp only [Index.apply, Index.get_del]
+      split
+      · rfl
+      · exact h k
+
+theorem disk_ext (d : Disk) (m t : Option (List Cell)) (hm : d.get .main = m) (ht : d.get .temp = t) :
+    d = { main := m, temp := t } := by
+  cases d; simp_all [Disk.get]
+
+theorem session_step (c : Cfg) (mk : Mk) (hmk : MkOk mk) (nl bs : Nat) (d : Disk) (idx : Index) (h : Between nl d idx)
+    (items : List (Op × Nat)) :
+    Between nl (sStep c mk nl bs d (.session items)) (Index.replay idx (items.map (·.1))) := by
+  by_cases hemp : items = []
+  · subst hemp
+    simpa [sStep, cWrite, cClose, Disk.applyAll, Index.replay] using h
+  have hne : items.isEmpty = false := by cases items <;> simp_all
+  -- the writer after `ensureWriter`, on a clean (possibly brand-new) file
+  have key : ∀ (d1 : Disk) (w : WSt) (blocks : List Block), (∀ b ∈ blocks, b.WF) → WInv d1 w (fileCells nl blocks) →
+      w.path = .main → w.buf = [] → d1.get .temp = none →
+      Between nl ((d1.applyAll (addManyW mk w items).2).applyAll (closeW c mk (addManyW mk w items).1))
+        (Index.replay (Index.replay [] (entsOf blocks)) (items.map (·.1))) := by
+    intro d1 w blocks hwf hinv hp hbuf htemp
+    obtain ⟨a, ha, pa⟩ := addManyW_spec mk hmk items d1 w _ hinv (by rw [hbuf]; exact maxEnts_pos)
+    obtain ⟨b, hb, hbwf, hfile, hother⟩ := closeW_spec c mk hmk _ _ _ pa.inv (Nat.le_of_lt pa.cnt)
+    rw [pa.path, hp] at hfile
+    have ht : ((d1.applyAll (addManyW mk w items).2).applyAll (closeW c mk (addManyW mk w items).1)).get .temp = none := by
+      rw [hother .temp (by rw [pa.path, hp]; decide), pa.other .temp (by rw [hp]; decide)]; exact htemp
+    right
+    refine ⟨blocks ++ a ++ b, ?_, ?_, ?_⟩
+    · intro x hx
+      rcases List.mem_append.mp hx with hx | hx
+      · rcases List.mem_append.mp hx with hx | hx
+        · exact hwf x hx
+        · exact pa.wf x hx
+      · exact hbwf x hx
+    · rw [disk_ext _ _ _ hfile ht]
+      simp [cleanDisk, fileCells, render_append, List.append_assoc]
+    · rw [entsOf_append, entsOf_append, hb, List.append_assoc, ha, hbuf, List.nil_append, Index.replay_append]
+  rcases h with ⟨hd, hidx⟩ | ⟨blocks, hwf, hd, hidx⟩
+  · subst hd; subst hidx
+    have hopen : ensureW c {} { w := none, nlName := nl, bs := bs } =
+        some ({ path := .main, pos := 64 + nl, nl := nl, buf := [], bufSize := 0, bs := bs }, createOps .main nl) := by
+      simp [ensureW, openWriter, Disk.get]
+    simp only [sStep, cWrite, hne, Bool.false_eq_true, if_false, hopen, cClose, Disk.applyAll_append, createOps_apply_main]
+    have := key { main := some (fhCells nl ++ nmCells nl), temp := none }
+      { path := .main, pos := 64 + nl, nl := nl, buf := [], bufSize := 0, bs := bs } [] (by simp)
+      ⟨by simp [Disk.get, fileCells_nil], by simp [fileCells_nil], fileCells_hdr nl []⟩ rfl rfl rfl
+    simpa [entsOf, Index.replay] using this
+  · subst hd; subst hidx
+    have hopen : ensureW c (cleanDisk nl blocks none) { w := none, nlName := nl, bs := bs } =
+        some ({ path := .main, pos := (fileCells nl blocks).length, nl := nl, buf := [], bufSize := 0, bs := bs }, []) := by
+      simp only [ensureW, cleanDisk]; exact openWriter_clean c nl bs blocks hwf none nl
+    simp only [sStep, cWrite, hne, Bool.false_eq_true, if_false, hopen, cClose, List.nil_append]
+    exact key (cleanDisk nl blocks none) _ blocks hwf ⟨rfl, rfl, fileCells_hdr nl blocks⟩ rfl rfl rfl
+
+theorem compact_step (c : Cfg) (mk : Mk) (hmk : MkOk mk) (nl bs : Nat) (d : Disk) (idx : Index) (h : Between nl d idx)
+    (ep : EP) (hrm : ep.rmFirst c = true) (order : List (Nat × Nat))
+    (hcov : ∀ i, mainIndex c d = some i → Covers order i) :
+    ∃ idx', Between nl (sStep c mk nl bs d (.compact ep order)) idx' ∧ idx'.Same idx := by
+  rcases h with ⟨hd, hidx⟩ | ⟨blocks, hwf, hd, hidx⟩
+  · subst hd; subst hidx
+    exact ⟨[], Or.inl ⟨by simp [sStep, compactVia, mainIndex, Disk.applyAll], rfl⟩, Index.Same.refl _⟩
+  · subst hd; subst hidx
+    have hi := mainIndex_clean c nl blocks hwf none
+    have hc := hcov _ hi
+    simp only [sStep, compactVia, hi, hrm]
+    obtain ⟨nbs, hnwf, hents, hfin⟩ := compactOps_rm c mk hmk nl bs blocks none
+      (liveEntries (Index.replay [] (entsOf blocks)) order)
+    rw [hfin]
+    refine ⟨_, Or.inr ⟨nbs, hnwf, rfl, rfl⟩, ?_⟩
+    intro k
+    rw [hents, liveEntries_fst, Index.get_replay_puts]
+    by_cases hk : k ∈ order.map (·.1)
+    · simp only [hk, if_true]
+      cases h : Index.get (Index.replay [] (entsOf blocks)) k <;> simp [Index.get_nil]
+    · simp only [hk, if_false, Index.get_nil]
+      exact (Index.get_eq_none_of_not_mem _ _ (fun hm => hk ((hc k).mpr hm))).symm
+
+/-- **Compaction anywhere.**  Whatever compactions (through entry points that remove the temp,
+    iterating over the live keys in any order) are inserted between the writing sessions of a
+    history, the file loads, at the end, to the replay of everything that was written. -/
+theorem compaction_anywhere (c : Cfg) (mk : Mk) (hmk : MkOk mk) (nl bs : Nat) (acts : List SAct)
+    (hv : sValid c mk nl bs {} acts) :
+    ∃ idx, Between nl (acts.foldl (sStep c mk nl bs) {}) idx ∧ idx.Same (Index.replay [] (sWritten acts)) := by
+  have gen : ∀ (acts : List SAct) (d : Disk) (idx spec : Index), Between nl d idx → idx.Same spec → sValid c mk nl bs d acts →
+      ∃ idx', Between nl (acts.foldl (sStep c mk nl bs) d) idx' ∧ idx'.Same (Index.replay spec (sWritten acts)) := by
+    intro acts
+    induction acts with
+    | nil => intro d idx spec hb hs _; exact ⟨idx, hb, by simpa [sWritten, Index.replay] using hs⟩
+    | cons a rest ih =>
+      intro d idx spec hb hs hv
+      cases a with
+      | session items =>
+        have h1 := session_step c mk hmk nl bs d idx hb items
+        obtain ⟨idx', hb', hs'⟩ := ih _ _ (Index.replay spec (items.map (·.1))) h1 (Same_replay hs _) hv
+        refine ⟨idx', hb', ?_⟩
+        simpa [sWritten, Index.replay_append] using hs'
+      | compact ep order =>
+        obtain ⟨hrm, hcov, hv'⟩ := hv
+        obtain ⟨idx1, hb1, hs1⟩ := compact_step c mk hmk nl bs d idx hb ep hrm order hcov
+        obtain ⟨idx', hb', hs'⟩ := ih _ idx1 spec hb1 (hs1.trans hs) hv'
+        exact ⟨idx', hb', by simpa [sWritten] using hs'⟩
+  exact gen acts {} [] [] (Or.inl ⟨rfl, rfl⟩) (Index.Same.refl _) hv
+
+/-! ### Compaction in the middle of a session
+
+The write- and close-triggers and `ForceCompaction` go through `runCompactionLocked`, which runs
+while the chronicler holds an open writer with buffered, not yet flushed entries: it closes the
+writer (flushing them), compacts, and the next `Write` reopens the file.  Histories here are at the
+granularity of single chronicler calls. -/
+
+/-- the chronicler between two calls: no writer and a clean file, or an open writer at the end of a
+    clean file with some entries still buffered; `spec` is what a load must return once they are flushed -/
+def MInv (nl bs : Nat) (s : MSt) (spec : Index) : Prop :=
+  s.cs.nlName = nl ∧ s.cs.bs = bs ∧
+  match s.cs.w with
+  | none => ∃ idx, Between nl s.d idx ∧ idx.Same spec
+  | some w => ∃ blocks, (∀ b ∈ blocks, b.WF) ∧ WInv s.d w (fileCells nl blocks) ∧ w.path = .main ∧
+      s.d.get .temp = none ∧ w.buf.length < maxEnts ∧ (Index.replay [] (entsOf blocks ++ w.buf)).Same spec
+
+/-- `Sync` as a writer step: the buffered entries become whole blocks, nothing else changes -/
+theorem syncW_post (c : Cfg) (mk : Mk) (hmk : MkOk mk) (d : Disk) (w : WSt) (f : List Cell) (h : WInv d w f)
+    (hlen : w.buf.length ≤ maxEnts) :
+    ∃ nbs, entsOf nbs = w.buf ∧ (syncW c mk w).1.buf = [] ∧
+      WPost d w f (d.applyAll (syncW c mk w).2) (syncW c mk w).1 nbs := by
+  obtain ⟨nbs, he, hbuf, hp⟩ := flushW_spec mk hmk d w f h hlen
+  refine ⟨nbs, he, hbuf, ?_⟩
+  have hd : d.applyAll (syncW c mk w).2 = d.applyAll (flushW mk w).2 := by
+    simp only [syncW, Disk.applyAll_append, Disk.applyAll_cons, Disk.applyAll_nil]
+    have hno := header_rewrite_noop _ _ _ hp.inv
+    rw [hp.path, hp.nl] at hno
+    rw [hno]
+    cases c.syncFsyncs <;> simp [Disk.applyAll, Disk.apply]
+  rw [hd]
+  exact hp
+
+/-- closing a writer in the invariant leaves a clean file that loads to `spec` -/
+theorem close_between (c : Cfg) (mk : Mk) (hmk : MkOk mk) (nl : Nat) (d : Disk) (w : WSt) (blocks : List Block)
+    (hwf : ∀ b ∈ blocks, b.WF) (hinv : WInv d w (fileCells nl blocks)) (hp : w.path = .main) (htemp : d.get .temp = none)
+    (hcnt : w.buf.length < maxEnts) :
+    Between nl (d.applyAll (closeW c mk w)) (Index.replay [] (entsOf blocks ++ w.buf)) := by
+  obtain ⟨b, hb, hbwf, hfile, hother⟩ := closeW_spec c mk hmk _ _ _ hinv (Nat.le_of_lt hcnt)
+  rw [hp] at hfile
+  have ht : (d.applyAll (closeW c mk w)).get .temp = none := by
+    rw [hother .temp (by rw [hp]; decide)]; exact htemp
+  right
+  refine ⟨blocks ++ b, ?_, ?_, ?_⟩
+  · intro x hx
+    rcases List.mem_append.mp hx with hx | hx
+    · exact hwf x hx
+    · exact hbwf x hx
+  · rw [disk_ext _ _ _ hfile ht]
+    simp [cleanDisk, fileCells, render_append, List.append_assoc]
+  · rw [entsOf_append, hb]
+
+theorem Same_symm {a b : Index} (h : a.Same b) : b.Same a := fun k => (h k).symm
+
+/-- one chronicler call keeps the invariant -/
+theorem mStep_inv (c : Cfg) (mk : Mk) (hmk : MkOk mk) (nl bs : Nat) (s : MSt) (spec : Index) (h : MInv nl bs s spec)
+    (a : MAct) (hv : mValid c mk s [a]) :
+    ∃ spec', MInv nl bs (mStep c mk s a) spec' ∧ spec'.Same (Index.replay spec (mWritten [a])) := by
+  obtain ⟨hnl, hbs, hw⟩ := h
+  -- writing from an open writer
+  have wr : ∀ (d0 : Disk) (w : WSt) (blocks : List Block) (items : List (Op × Nat)), (∀ b ∈ blocks, b.WF) →
+      WInv d0 w (fileCells nl blocks) → w.path = .main → d0.get .temp = none → w.buf.length < maxEnts →
+      (Index.replay [] (entsOf blocks ++ w.buf)).Same spec →
+      ∃ blocks', (∀ b ∈ blocks', b.WF) ∧
+        WInv (d0.applyAll (addManyW mk w items).2) (addManyW mk w items).1 (fileCells nl blocks') ∧
+        (addManyW mk w items).1.path = .main ∧ (d0.applyAll (addManyW mk w items).2).get .temp = none ∧
+        (addManyW mk w items).1.buf.length < maxEnts ∧
+        (Index.replay [] (entsOf blocks' ++ (addManyW mk w items).1.buf)).Same (Index.replay spec (items.map (·.1))) := by
+    intro d0 w blocks items hwf hinv hp htemp hcnt hs
+    obtain ⟨a', ha, pa⟩ := addManyW_spec mk hmk items d0 w _ hinv hcnt
+    refine ⟨blocks ++ a', ?_, ?_, by rw [pa.path, hp], ?_, pa.cnt, ?_⟩
+    · intro x hx
+      rcases List.mem_append.mp hx with hx | hx
+      · exact hwf x hx
+      · exact pa.wf x hx
+    · have : fileCells nl (blocks ++ a') = fileCells nl blocks ++ render a' := by
+        simp [fileCells, render_append, List.append_assoc]
+      rw [this]; exact pa.inv
+    · rw [pa.other .temp (by rw [hp]; decide)]; exact htemp
+    · rw [entsOf_append, List.append_assoc, ha, ← List.append_assoc, Index.replay_append]
+      exact Same_replay hs _
+  cases a with
+  | w items =>
+    simp only [mStep, mWritten, List.append_nil]
+    by_cases hemp : items.isEmpty = true
+    · have : items = [] := by simpa using hemp
+      subst this
+      refine ⟨spec, ?_, by simp [Index.replay, Index.Same.refl]⟩
+      simp only [cWrite, List.isEmpty_nil, if_true, Disk.applyAll_nil]
+      exact ⟨hnl, hbs, hw⟩
+    · simp only [cWrite, hemp, if_false, Bool.false_eq_true]
+      refine ⟨Index.replay spec (items.map (·.1)), ?_, Index.Same.refl _⟩
+      cases hcw : s.cs.w with
+      | some w0 =>
+        rw [hcw] at hw
+        obtain ⟨blocks, hwf, hinv, hp, htemp, hcnt, hs⟩ := hw
+        have he : ensureW c s.d s.cs = some (w0, []) := by simp [ensureW, hcw]
+        simp only [he, List.nil_append]
+        obtain ⟨bl', h1, h2, h3, h4, h5, h6⟩ := wr s.d w0 blocks items hwf hinv hp htemp hcnt hs
+        exact ⟨hnl, hbs, bl', h1, h2, h3, h4, h5, h6⟩
+      | none =>
+        rw [hcw] at hw
+        obtain ⟨idx, hb, hs⟩ := hw
+        rcases hb with ⟨hd, hidx⟩ | ⟨blocks, hwf, hd, hidx⟩
+        · -- the file is created
+          have hopen : ensureW c {} s.cs =
+              some ({ path := .main, pos := 64 + nl, nl := nl, buf := [], bufSize := 0, bs := bs }, createOps .main nl) := by
+            simp [ensureW, hcw, openWriter, Disk.get, hnl, hbs]
+          rw [hd]
+          simp only [hopen, Disk.applyAll_append, createOps_apply_main]
+          obtain ⟨bl', h1, h2, h3, h4, h5, h6⟩ := wr { main := some (fhCells nl ++ nmCells nl), temp := none }
+            { path := .main, pos := 64 + nl, nl := nl, buf := [], bufSize := 0, bs := bs } [] items (by simp)
+            ⟨by simp [Disk.get, fileCells_nil], by simp [fileCells_nil], fileCells_hdr nl []⟩ rfl rfl maxEnts_pos
+            (by subst hidx; simpa [entsOf, Index.replay] using hs)
+          exact ⟨hnl, hbs, bl', h1, h2, h3, h4, h5, h6⟩
+        · have hopen : ensureW c s.d s.cs =
+              some ({ path := .main, pos := (fileCells nl blocks).length, nl := nl, buf := [], bufSize := 0, bs := bs }, []) := by
+            simp only [ensureW, hcw, hd, cleanDisk, hnl, hbs]; exact openWriter_clean c nl bs blocks hwf none nl
+          simp only [hopen, List.nil_append]
+          obtain ⟨bl', h1, h2, h3, h4, h5, h6⟩ := wr s.d
+            { path := .main, pos := (fileCells nl blocks).length, nl := nl, buf := [], bufSize := 0, bs := bs } blocks items hwf
+            (by rw [hd]; exact ⟨rfl, rfl, fileCells_hdr nl blocks⟩) rfl (by rw [hd]; rfl) maxEnts_pos
+            (by subst hidx; simpa using hs)
+          exact ⟨hnl, hbs, bl', h1, h2, h3, h4, h5, h6⟩
+  | sync =>
+    simp only [mStep, mWritten, Index.replay, List.foldl_nil]
+    refine ⟨spec, ?_, Index.Same.refl _⟩
+    cases hcw : s.cs.w with
+    | none =>
+      simp only [cSync, hcw, Disk.applyAll_nil]
+      refine ⟨hnl, hbs, ?_⟩
+      rw [hcw] at hw ⊢; exact hw
+    | some w0 =>
+      rw [hcw] at hw
+      obtain ⟨blocks, hwf, hinv, hp, htemp, hcnt, hs⟩ := hw
+      simp only [cSync, hcw]
+      obtain ⟨nbs, he, hbuf, pa⟩ := syncW_post c mk hmk s.d w0 _ hinv (Nat.le_of_lt hcnt)
+      refine ⟨hnl, hbs, blocks ++ nbs, ?_, ?_, by rw [pa.path, hp], ?_, pa.cnt, ?_⟩
+      · intro x hx
+        rcases List.mem_append.mp hx with hx | hx
+        · exact hwf x hx
+        · exact pa.wf x hx
+      · have : fileCells nl (blocks ++ nbs) = fileCells nl blocks ++ render nbs := by
+          simp [fileCells, render_append, List.append_assoc]
+        rw [this]; exact pa.inv
+      · rw [pa.other .temp (by rw [hp]; decide)]; exact htemp
+      · rw [hbuf, List.append_nil, entsOf_append, he]; exact hs
+  | close =>
+    simp only [mStep, mWritten, Index.replay, List.foldl_nil]
+    refine ⟨spec, ?_, Index.Same.refl _⟩
+    cases hcw : s.cs.w with
+    | none =>
+      simp only [cClose, hcw, Disk.applyAll_nil]
+      refine ⟨hnl, hbs, ?_⟩
+      rw [hcw] at hw ⊢; exact hw
+    | some w0 =>
+      rw [hcw] at hw
+      obtain ⟨blocks, hwf, hinv, hp, htemp, hcnt, hs⟩ := hw
+      simp only [cClose, hcw]
+      exact ⟨hnl, hbs, _, close_between c mk hmk nl s.d w0 blocks hwf hinv hp htemp hcnt, hs⟩
+  | compactLocked order =>
+    obtain ⟨hrm, hcov, _⟩ := hv
+    simp only [mStep, mWritten, Index.replay, List.foldl_nil]
+    -- the disk after the writer was closed is between sessions
+    have hclosed : ∃ idx1, Between nl (s.d.applyAll (cClose c mk s.cs).2) idx1 ∧ idx1.Same spec ∧ (cClose c mk s.cs).1.w = none ∧
+        (cClose c mk s.cs).1.nlName = nl ∧ (cClose c mk s.cs).1.bs = bs := by
+      cases hcw : s.cs.w with
+      | none =>
+        rw [hcw] at hw
+        obtain ⟨idx, hb, hs⟩ := hw
+        have e : cClose c mk s.cs = (s.cs, []) := by simp [cClose, hcw]
+        rw [e]
+        exact ⟨idx, by rw [Disk.applyAll_nil]; exact hb, hs, hcw, hnl, hbs⟩
+      | some w0 =>
+        rw [hcw] at hw
+        obtain ⟨blocks, hwf, hinv, hp, htemp, hcnt, hs⟩ := hw
+        have e : cClose c mk s.cs = ({ s.cs with w := none }, closeW c mk w0) := by simp [cClose, hcw]
+        rw [e]
+        exact ⟨_, close_between c mk hmk nl s.d w0 blocks hwf hinv hp htemp hcnt, hs, rfl, hnl, hbs⟩
+    obtain ⟨idx1, hb1, hs1, hwn, hnl1, hbs1⟩ := hclosed
+    obtain ⟨idx', hb', hs'⟩ := compact_step c mk hmk nl bs _ idx1 hb1 .locked hrm order hcov
+    refine ⟨spec, ⟨?_, ?_, ?_⟩, Index.Same.refl _⟩
+    · simp only [cCompactLocked]; exact hnl1
+    · simp only [cCompactLocked]; exact hbs1
+    · simp only [cCompactLocked, hwn]
+      refine ⟨idx', ?_, hs'.trans hs1⟩
+      rw [Disk.applyAll_append]
+      simpa [sStep, hbs] using hb'
+  | compactOff ep order =>
+    obtain ⟨hrm, hcov, _⟩ := hv
+    simp only [mStep, mWritten, Index.replay, List.foldl_nil]
+    refine ⟨spec, ?_, Index.Same.refl _⟩
+    cases hcw : s.cs.w with
+    | some w0 => exact ⟨hnl, hbs, by rw [hcw] at hw ⊢; exact hw⟩
+    | none =>
+      rw [hcw] at hw
+      obtain ⟨idx, hb, hs⟩ := hw
+      obtain ⟨idx', hb', hs'⟩ := compact_step c mk hmk nl bs _ idx hb ep hrm order hcov
+      refine ⟨hnl, hbs, ?_⟩
+      simp only [hcw]
+      exact ⟨idx', by simpa [sStep, hbs] using hb', hs'.trans hs⟩
+
+theorem mWritten_cons (a : MAct) (r : List MAct) : mWritten (a :: r) = mWritten [a] ++ mWritten r := by
+  cases a <;> simp [mWritten]
+
+theorem mValid_head (c : Cfg) (mk : Mk) (s : MSt) (a : MAct) (r : List MAct) (h : mValid c mk s (a :: r)) :
+    mValid c mk s [a] ∧ mValid c mk (mStep c mk s a) r := by
+  cases a with
+  | w items => exact ⟨trivial, h⟩
+  | sync => exact ⟨trivial, h⟩
+  | close => exact ⟨trivial, h⟩
+  | compactLocked order => exact ⟨⟨h.1, h.2.1, trivial⟩, h.2.2⟩
+  | compactOff ep order => exact ⟨⟨h.1, h.2.1, trivial⟩, h.2.2⟩
+
+/-- **Compaction in the middle of a session.**  Whatever chronicler calls a history is made of —
+    writes, syncs, closes, locked compactions at any moment (also between two writes of an open
+    writer that still buffers entries), offline compactions while no writer is open — once the
+    chronicler is closed the file loads to the replay of everything that was written. -/
+theorem compaction_mid_session (c : Cfg) (mk : Mk) (hmk : MkOk mk) (nl bs : Nat) (acts : List MAct)
+    (hv : mValid c mk ⟨{ w := none, nlName := nl, bs := bs }, {}⟩ acts) :
+    ∃ idx, Between nl (mStep c mk (acts.foldl (mStep c mk) ⟨{ w := none, nlName := nl, bs := bs }, {}⟩) .close).d idx ∧
+      idx.Same (Index.replay [] (mWritten acts)) := by
+  have gen : ∀ (acts : List MAct) (s : MSt) (spec : Index), MInv nl bs s spec → mValid c mk s acts →
+      ∃ spec', MInv nl bs (acts.foldl (mStep c mk) s) spec' ∧ spec'.Same (Index.replay spec (mWritten acts)) := by
+    intro acts
+    induction acts with
+    | nil => intro s spec h _; exact ⟨spec, h, by simp [mWritten, Index.replay, Index.Same.refl]⟩
+    | cons a rest ih =>
+      intro s spec h hv
+      obtain ⟨hv1, hv2⟩ := mValid_head c mk s a rest hv
+      obtain ⟨spec1, h1, hs1⟩ := mStep_inv c mk hmk nl bs s spec h a hv1
+      obtain ⟨spec2, h2, hs2⟩ := ih _ spec1 h1 hv2
+      refine ⟨spec2, h2, ?_⟩
+      rw [mWritten_cons, Index.replay_append]
+      exact hs2.trans (Same_replay hs1 _)
+  have h0 : MInv nl bs ⟨{ w := none, nlName := nl, bs := bs }, {}⟩ [] :=
+    ⟨rfl, rfl, [], Or.inl ⟨rfl, rfl⟩, Index.Same.refl _⟩
+  obtain ⟨spec, hinv, hs⟩ := gen acts _ _ h0 hv
+  obtain ⟨spec', hinv', hs'⟩ := mStep_inv c mk hmk nl bs _ spec hinv .close trivial
+  obtain ⟨_, _, hw⟩ := hinv'
+  have hnone : (mStep c mk (acts.foldl (mStep c mk) ⟨{ w := none, nlName := nl, bs := bs }, {}⟩) .close).cs.w = none := by
+    simp only [mStep, cClose]; split <;> simp_all
+  rw [hnone] at hw
+  obtain ⟨idx, hb, hsi⟩ := hw
+  refine ⟨idx, hb, hsi.trans (hs'.trans ?_)⟩
+  simpa [mWritten, Index.replay] using hs
+
+
 /-! ### The fragment that always holds, and the decision over the extracted facts -/
 
 /-- what is proved whatever the facts: entry points that remove the temp preserve the live
@@ -245,7 +690,9 @@ theorem C03_partial (c : Cfg) : Partial c :=
   ⟨fun ep h => ⟨compact_preserves c ep h, compact_preserves_torn c ep h⟩, fun h => compact_crash_atomic c h⟩
 
 theorem holds_of_good (c : Cfg) (h1 : ∀ ep : EP, ep.rmFirst c = true) (h2 : c.closeFsyncs = true) : Holds c :=
-  ⟨fun ep => compact_preserves c ep (h1 ep), fun ep => compact_preserves_torn c ep (h1 ep), compact_crash_atomic c h2⟩
+  ⟨fun ep => compact_preserves c ep (h1 ep), fun ep => compact_preserves_torn c ep (h1 ep), compact_crash_atomic c h2,
+   fun mk hmk nl bs acts hv => compaction_anywhere c mk hmk nl bs acts hv,
+   fun mk hmk nl bs acts hv => compaction_mid_session c mk hmk nl bs acts hv⟩
 
 structure Facts where
   /-- `CleanupCompactionTemp` precedes `NewCompactor(...).Compact()` in runCompactionLocked -/
@@ -354,157 +801,5 @@ theorem classify_sound (f : Facts) : (classify f).Sound (Holds (cfgOf f)) (Parti
       · cases h : (cfgOf f).closeFsyncs
         · exact absurd hh.atomic (compact_no_fsync_loses _ h)
         · rfl
-
-end Hv.C03
-
-namespace Hv.C03
-open Hv.BlockStore
-
-/-! ### Compaction anywhere in a history -/
-
-/-- a history at session granularity: a writing session (`Write(items)` … `Close`) or a compaction -/
-inductive SAct where
-  | session (items : List (Op × Nat))
-  | compact (ep : EP) (order : List (Nat × Nat))
-
-def sStep (c : Cfg) (mk : Mk) (nl bs : Nat) (d : Disk) : SAct → Disk
-  | .session items =>
-    let w1 := cWrite c mk d { w := none, nlName := nl, bs := bs } items
-    (d.applyAll w1.2).applyAll (cClose c mk w1.1).2
-  | .compact ep order => d.applyAll (compactVia c mk d ep order bs)
-
-def sWritten : List SAct → List Op
-  | [] => []
-  | .session items :: r => items.map (·.1) ++ sWritten r
-  | .compact _ _ :: r => sWritten r
-
-/-- every compaction goes through an entry point that removes the temp, and iterates over exactly the live keys -/
-def sValid (c : Cfg) (mk : Mk) (nl bs : Nat) : Disk → List SAct → Prop
-  | _, [] => True
-  | d, .session items :: r => sValid c mk nl bs (sStep c mk nl bs d (.session items)) r
-  | d, .compact ep order :: r =>
-    ep.rmFirst c = true ∧ (∀ idx, mainIndex c d = some idx → Covers order idx) ∧
-      sValid c mk nl bs (sStep c mk nl bs d (.compact ep order)) r
-
-theorem Same_replay {a b : Index} (h : a.Same b) (es : List Op) : (Index.replay a es).Same (Index.replay b es) := by
-  induction es generalizing a b with
-  | nil => exact h
-  | cons e r ih =>
-    apply ih
-    intro k
-    cases e with
-    | put k' v =>
-      simp only [Index.apply, Index.get_put]
-      split
-      · rfl
-      · exact h k
-    | del k' =>
-      simp only [Index.apply, Index.get_del]
-      split
-      · rfl
-      · exact h k
-
-/-- the disk between sessions: nothing, or a clean main file and no temp -/
-def Between (nl : Nat) (d : Disk) (idx : Index) : Prop :=
-  (d = {} ∧ idx = []) ∨ ∃ blocks, (∀ b ∈ blocks, b.WF) ∧ d = cleanDisk nl blocks none ∧ idx = Index.replay [] (entsOf blocks)
-
-theorem disk_ext (d : Disk) (m t : Option (List Cell)) (hm : d.get .main = m) (ht : d.get .temp = t) :
-    d = { main := m, temp := t } := by
-  cases d; simp_all [Disk.get]
-
-theorem session_step (c : Cfg) (mk : Mk) (hmk : MkOk mk) (nl bs : Nat) (d : Disk) (idx : Index) (h : Between nl d idx)
-    (items : List (Op × Nat)) :
-    Between nl (sStep c mk nl bs d (.session items)) (Index.replay idx (items.map (·.1))) := by
-  by_cases hemp : items = []
-  · subst hemp
-    simpa [sStep, cWrite, cClose, Disk.applyAll, Index.replay] using h
-  have hne : items.isEmpty = false := by cases items <;> simp_all
-  -- the writer after `ensureWriter`, on a clean (possibly brand-new) file
-  have key : ∀ (d1 : Disk) (w : WSt) (blocks : List Block), (∀ b ∈ blocks, b.WF) → WInv d1 w (fileCells nl blocks) →
-      w.path = .main → w.buf = [] → d1.get .temp = none →
-      Between nl ((d1.applyAll (addManyW mk w items).2).applyAll (closeW c mk (addManyW mk w items).1))
-        (Index.replay (Index.replay [] (entsOf blocks)) (items.map (·.1))) := by
-    intro d1 w blocks hwf hinv hp hbuf htemp
-    obtain ⟨a, ha, pa⟩ := addManyW_spec mk hmk items d1 w _ hinv (by rw [hbuf]; exact maxEnts_pos)
-    obtain ⟨b, hb, hbwf, hfile, hother⟩ := closeW_spec c mk hmk _ _ _ pa.inv (Nat.le_of_lt pa.cnt)
-    rw [pa.path, hp] at hfile
-    have ht : ((d1.applyAll (addManyW mk w items).2).applyAll (closeW c mk (addManyW mk w items).1)).get .temp = none := by
-      rw [hother .temp (by rw [pa.path, hp]; decide), pa.other .temp (by rw [hp]; decide)]; exact htemp
-    right
-    refine ⟨blocks ++ a ++ b, ?_, ?_, ?_⟩
-    · intro x hx
-      rcases List.mem_append.mp hx with hx | hx
-      · rcases List.mem_append.mp hx with hx | hx
-        · exact hwf x hx
-        · exact pa.wf x hx
-      · exact hbwf x hx
-    · rw [disk_ext _ _ _ hfile ht]
-      simp [cleanDisk, fileCells, render_append, List.append_assoc]
-    · rw [entsOf_append, entsOf_append, hb, List.append_assoc, ha, hbuf, List.nil_append, Index.replay_append]
-  rcases h with ⟨hd, hidx⟩ | ⟨blocks, hwf, hd, hidx⟩
-  · subst hd; subst hidx
-    have hopen : ensureW c {} { w := none, nlName := nl, bs := bs } =
-        some ({ path := .main, pos := 64 + nl, nl := nl, buf := [], bufSize := 0, bs := bs }, createOps .main nl) := by
-      simp [ensureW, openWriter, Disk.get]
-    simp only [sStep, cWrite, hne, Bool.false_eq_true, if_false, hopen, cClose, Disk.applyAll_append, createOps_apply_main]
-    have := key { main := some (fhCells nl ++ nmCells nl), temp := none }
-      { path := .main, pos := 64 + nl, nl := nl, buf := [], bufSize := 0, bs := bs } [] (by simp)
-      ⟨by simp [Disk.get, fileCells_nil], by simp [fileCells_nil], fileCells_hdr nl []⟩ rfl rfl rfl
-    simpa [entsOf, Index.replay] using this
-  · subst hd; subst hidx
-    have hopen : ensureW c (cleanDisk nl blocks none) { w := none, nlName := nl, bs := bs } =
-        some ({ path := .main, pos := (fileCells nl blocks).length, nl := nl, buf := [], bufSize := 0, bs := bs }, []) := by
-      simp only [ensureW, cleanDisk]; exact openWriter_clean c nl bs blocks hwf none nl
-    simp only [sStep, cWrite, hne, Bool.false_eq_true, if_false, hopen, cClose, List.nil_append]
-    exact key (cleanDisk nl blocks none) _ blocks hwf ⟨rfl, rfl, fileCells_hdr nl blocks⟩ rfl rfl rfl
-
-theorem compact_step (c : Cfg) (mk : Mk) (hmk : MkOk mk) (nl bs : Nat) (d : Disk) (idx : Index) (h : Between nl d idx)
-    (ep : EP) (hrm : ep.rmFirst c = true) (order : List (Nat × Nat))
-    (hcov : ∀ i, mainIndex c d = some i → Covers order i) :
-    ∃ idx', Between nl (sStep c mk nl bs d (.compact ep order)) idx' ∧ idx'.Same idx := by
-  rcases h with ⟨hd, hidx⟩ | ⟨blocks, hwf, hd, hidx⟩
-  · subst hd; subst hidx
-    exact ⟨[], Or.inl ⟨by simp [sStep, compactVia, mainIndex, Disk.applyAll], rfl⟩, Index.Same.refl _⟩
-  · subst hd; subst hidx
-    have hi := mainIndex_clean c nl blocks hwf none
-    have hc := hcov _ hi
-    simp only [sStep, compactVia, hi, hrm]
-    obtain ⟨nbs, hnwf, hents, hfin⟩ := compactOps_rm c mk hmk nl bs blocks none
-      (liveEntries (Index.replay [] (entsOf blocks)) order)
-    rw [hfin]
-    refine ⟨_, Or.inr ⟨nbs, hnwf, rfl, rfl⟩, ?_⟩
-    intro k
-    rw [hents, liveEntries_fst, Index.get_replay_puts]
-    by_cases hk : k ∈ order.map (·.1)
-    · simp only [hk, if_true]
-      cases h : Index.get (Index.replay [] (entsOf blocks)) k <;> simp [Index.get_nil]
-    · simp only [hk, if_false, Index.get_nil]
-      exact (Index.get_eq_none_of_not_mem _ _ (fun hm => hk ((hc k).mpr hm))).symm
-
-/-- **Compaction anywhere.**  Whatever compactions (through entry points that remove the temp,
-    iterating over the live keys in any order) are inserted between the writing sessions of a
-    history, the file loads, at the end, to the replay of everything that was written. -/
-theorem compaction_anywhere (c : Cfg) (mk : Mk) (hmk : MkOk mk) (nl bs : Nat) (acts : List SAct)
-    (hv : sValid c mk nl bs {} acts) :
-    ∃ idx, Between nl (acts.foldl (sStep c mk nl bs) {}) idx ∧ idx.Same (Index.replay [] (sWritten acts)) := by
-  have gen : ∀ (acts : List SAct) (d : Disk) (idx spec : Index), Between nl d idx → idx.Same spec → sValid c mk nl bs d acts →
-      ∃ idx', Between nl (acts.foldl (sStep c mk nl bs) d) idx' ∧ idx'.Same (Index.replay spec (sWritten acts)) := by
-    intro acts
-    induction acts with
-    | nil => intro d idx spec hb hs _; exact ⟨idx, hb, by simpa [sWritten, Index.replay] using hs⟩
-    | cons a rest ih =>
-      intro d idx spec hb hs hv
-      cases a with
-      | session items =>
-        have h1 := session_step c mk hmk nl bs d idx hb items
-        obtain ⟨idx', hb', hs'⟩ := ih _ _ (Index.replay spec (items.map (·.1))) h1 (Same_replay hs _) hv
-        refine ⟨idx', hb', ?_⟩
-        simpa [sWritten, Index.replay_append] using hs'
-      | compact ep order =>
-        obtain ⟨hrm, hcov, hv'⟩ := hv
-        obtain ⟨idx1, hb1, hs1⟩ := compact_step c mk hmk nl bs d idx hb ep hrm order hcov
-        obtain ⟨idx', hb', hs'⟩ := ih _ idx1 spec hb1 (hs1.trans hs) hv'
-        exact ⟨idx', hb', by simpa [sWritten] using hs'⟩
-  exact gen acts {} [] [] (Or.inl ⟨rfl, rfl⟩) (Index.Same.refl _) hv
 
 end Hv.C03
